@@ -86,7 +86,9 @@ impl Driver {
         if panic.is_none() {
             // up to 60 sentinels: fault injection may spoil individual replies
             for _ in 0..60 {
-                match self.srv.sentinel(4) {
+                // one process_events call may legitimately stop before the socket is empty
+                // (bounded work per call): allow as many steps as the backlog could need
+                match self.srv.sentinel(6 + sent.len() / 16) {
                     Ok((reqb, nonce, got)) => {
                         sentinel_sent += 1;
                         sentinel_replies += got.len();
